@@ -12,6 +12,7 @@ func c12Prelude() string {
 		Var("P", "{k: 1, ক: 2, x1: 3}"), Var("Q", "{}"), Var("R", "{মান: 4}"), Var("T", "nil"),
 		Var("arr", "[P, R]"), Var("outer", "{in: P, other: Q}"),
 		Fun("setvia", "o, v", " o.k = v; "),
+		Var("ticket", "0"), Fun("nx", "", " ticket = ticket + 1; "+Ret("ticket")+" "),
 		Fun("delvia", "o, key", " "+BI("delete", "o", "key")+"; "),
 		dump, "dump();")
 }
@@ -38,6 +39,10 @@ func c12Ops() []histOp {
 		{"write-signed-zeros", "P.z = 0; Q.z = 0; P.z = -0; " + Print("P.z") + " R.nz = -0; R.nz = 0; " + Print("R.nz"), false},
 		{"write-equal-looking-values", "P.e = 1; P.e = " + True() + "; Q.e2 = \"1\"; Q.e2 = 1; R.e3 = nil; R.e3 = " + False() + "; R.e4 = \"\"; R.e4 = 0;", false},
 		{"listing-element-identity", "P.ch = {n: %f}; T = " + BI("values", "{only: P.ch}") + "; T[0].n = %f; " + Print("P.ch.n") + " " + Print("T[0] == P.ch") + " T = nil;", false},
+		// the values of a literal are computed in the order written (each from a shared counter), whatever the names are
+		{"literal-values-from-counter", "Q = {name: nx(), city: nx(), age: nx(), zip: nx(), b: nx()}; " + Print("Q.name - Q.age"), false}, {"literal-nested-values-from-counter", "R = {z: nx(), inner: {y: nx(), a: nx()}, a: nx()}; " + Print("R.inner.a - R.z"), false},
+		// names may start with an underscore
+		{"underscore-names", "P._id = %f; Q = {_rev: %f, _: %f, __x: {_y: %f}}; " + Print("P._id + Q._rev + Q._ + Q.__x._y") + " " + del("Q", `"_"`), false},
 		// names differing in letter case or digit script are different names; listings stay mutually consistent for them
 		{"literal-mixed-case-keys", "R = {age: %f, Zip: %f, City: %f, name: %f};", false}, {"write-mixed-case-keys", "P.Zip = %f; P.apple = %f; Q.Total = %f; Q.count = %f; Q.total = %f;", false},
 		{"literal-digit-script-keys", "Q = {k\u09e7: %f, k1: %f, \u09ae\u09be\u09a8\u09e8: %f}; " + Print("Q.k1 - Q.k\u09e7"), false},
@@ -127,7 +132,7 @@ func c12Run(c *Ctx) {
 func init() {
 	register(&CheckDef{
 		ID:   "C12",
-		Rule: "histories over three object variables with shared ancestry (aliases, an array and an outer object holding them, parameter-writing and parameter-deleting functions) and the key pool {k, ক, x1, মান, ...}: 33 non-faulting step kinds (alias, literals with 0/2/3/6 keys and nested, write new / existing / nil-valued / object-valued property directly, through a parameter, an array element, an outer object; write-then-delete directly, through a parameter, with a computed key, of a nil-valued property; reads) (incl. names differing only in letter case or digit script) and 26 faulting step kinds (reads that are whole statements included) (read absent, . on nil/array/number/string, write on non-object, delete absent / twice / non-string key / non-object, listings of non-objects); every history of <=2 steps, every 7th of <=3 (quick) / all of <=4 (thorough), each also ended by every faulting step; random histories of 4-34 steps. After every step every live object is printed together with its key list and value list, each listing twice in a row; every program is executed 3 times (hash-iteration order is the schedule). Listings may come in any order but all listings of one unmodified object must agree position-wise (keys with values). Compared with refborno's pure map model. Non-trivial = distinct decided history.",
+		Rule: "histories over three object variables with shared ancestry (aliases, an array and an outer object holding them, parameter-writing and parameter-deleting functions) and the key pool {k, ক, x1, মান, ...}: 36 non-faulting step kinds (alias, literals with 0/2/3/6 keys and nested, write new / existing / nil-valued / object-valued property directly, through a parameter, an array element, an outer object; write-then-delete directly, through a parameter, with a computed key, of a nil-valued property; reads) (incl. names differing only in letter case or digit script) and 26 faulting step kinds (reads that are whole statements included) (read absent, . on nil/array/number/string, write on non-object, delete absent / twice / non-string key / non-object, listings of non-objects); every history of <=2 steps, every 7th of <=3 (quick) / all of <=4 (thorough), each also ended by every faulting step; random histories of 4-34 steps. After every step every live object is printed together with its key list and value list, each listing twice in a row; every program is executed 3 times (hash-iteration order is the schedule). Listings may come in any order but all listings of one unmodified object must agree position-wise (keys with values). Compared with refborno's pure map model. Non-trivial = distinct decided history.",
 		Assumptions: []string{"the order of a key/value listing is not pinned, only its consistency; what কি_রিমুভ returns is not pinned"},
 		Run:         c12Run,
 		Judge:       c12Judge,
